@@ -242,9 +242,10 @@ class NV(float):
     """Native value with tolerant comparisons (|a-b| <= tol * max(1,|a|,|b|) counts as equal)."""
 
     tol = 1e-9
+    unit = 1.0          # magnitude floor of the tolerance; inputs may carry "__unit__" (scaled-input layers)
 
     def _eps(self, o):
-        return NV.tol * max(1.0, abs(float(self)), abs(float(o)))
+        return NV.tol * max(NV.unit, abs(float(self)), abs(float(o)))
 
     def __le__(self, o):
         return float(self) <= float(o) + self._eps(o)
@@ -333,6 +334,7 @@ class NativeMode:
         self.checks = 0
         self.tol = tol
         NV.tol = tol
+        NV.unit = 1.0 if self.auto else float(self.given.get("__unit__", 1.0))
         self.meta = {}
 
     def mod(self, name):
